@@ -102,6 +102,12 @@ type FuncCtx struct {
 	retOrd    int
 	curOuts   []InputSym
 	usedContracts map[string]bool
+	byteSlices []byteLeaf
+}
+
+type byteLeaf struct {
+	term  string
+	ndecl int
 }
 
 type jumpTarget struct {
@@ -132,6 +138,7 @@ func (fc *FuncCtx) fresh(prefix string, t types.Type) Term {
 	sort := fc.w.Reg.SortOf(t)
 	fc.decls = append(fc.decls, fmt.Sprintf("(declare-const %s %s)", name, sort))
 	tm := Term{S: name, T: t}
+	fc.collectByteLeaves(tm, 0)
 	if rf := fc.w.Reg.rangeFact(tm, 0); rf != "true" {
 		fc.facts = append(fc.facts, rf)
 	}
@@ -193,6 +200,16 @@ func (fc *FuncCtx) cover(st *State, kind string, n ast.Node, text string) {
 	fc.counter[kind]++
 	name := fmt.Sprintf("%s#%s.%d", fc.funcShort(), kind, fc.counter[kind])
 	o := &Obligation{Name: name, Func: fc.funcShort(), Kind: kind, Goal: "false", Guard: st.guard, NDecl: len(fc.decls), NFact: len(fc.facts), Pos: fc.pos(n), Text: text, Cover: true, fc: fc}
+	if fc.contract != nil {
+		for _, u := range strings.Fields(fc.contract.Opts["unreachable"]) {
+			if strings.HasSuffix(name, "#"+u) {
+				// declared dead code: must be proved unreachable (a change that revives it is reported)
+				o.Cover = false
+				o.Kind = "dead"
+				o.Text = "declared unreachable: " + text
+			}
+		}
+	}
 	fc.obls = append(fc.obls, o)
 }
 
@@ -201,7 +218,9 @@ func (fc *FuncCtx) fail(n ast.Node, f string, a ...interface{}) {
 }
 
 // query renders the SMT-LIB text of an obligation.
-func (o *Obligation) Query(models bool) string {
+func (o *Obligation) Query(models bool) string { return o.QueryWith(models, nil) }
+
+func (o *Obligation) QueryWith(models bool, extra []string) string {
 	fc := o.fc
 	var b strings.Builder
 	if models {
@@ -219,6 +238,9 @@ func (o *Obligation) Query(models bool) string {
 	}
 	for _, f := range fc.facts[:o.NFact] {
 		b.WriteString("(assert " + f + ")\n")
+	}
+	for _, e := range extra {
+		b.WriteString("(assert " + e + ")\n")
 	}
 	b.WriteString("(assert " + o.Guard + ")\n")
 	if !o.Cover {
@@ -259,7 +281,7 @@ func (fc *FuncCtx) merge(states []*State) *State {
 	res := live[0].clone()
 	for _, s := range live[1:] {
 		n := &State{vars: map[types.Object]Term{}, alias: res.alias, ghost: map[string]Term{}, held: res.held}
-		n.guard = or(res.guard, s.guard)
+		n.guard = fc.compactBool(or(res.guard, s.guard))
 		keys := map[types.Object]bool{}
 		for k := range res.vars {
 			keys[k] = true
@@ -272,7 +294,7 @@ func (fc *FuncCtx) merge(states []*State) *State {
 			b, okB := s.vars[k]
 			switch {
 			case okA && okB:
-				n.vars[k] = Term{S: ite(s.guard, b.S, a.S), T: a.T}
+				n.vars[k] = fc.compact(Term{S: ite(s.guard, b.S, a.S), T: a.T})
 				if a.Const != nil && b.Const != nil && *a.Const == *b.Const {
 					n.vars[k] = a
 				}
@@ -317,3 +339,64 @@ func sortedObls(os []*Obligation) []*Obligation {
 }
 
 var _ = token.NoPos
+
+// compact names a large term with a fresh constant (a definition, always satisfiable), so
+// that term size stays linear in the program size.
+func (fc *FuncCtx) compact(t Term) Term {
+	if len(t.S) < 160 || t.T == nil {
+		return t
+	}
+	fc.nfresh++
+	name := fmt.Sprintf("t_%d", fc.nfresh)
+	fc.decls = append(fc.decls, fmt.Sprintf("(declare-const %s %s)", name, fc.w.Reg.SortOf(t.T)))
+	fc.facts = append(fc.facts, "(= "+name+" "+t.S+")")
+	return Term{S: name, T: t.T, Const: t.Const}
+}
+
+func (fc *FuncCtx) compactBool(s string) string {
+	if len(s) < 200 {
+		return s
+	}
+	fc.nfresh++
+	name := fmt.Sprintf("g_%d", fc.nfresh)
+	fc.decls = append(fc.decls, fmt.Sprintf("(declare-const %s Bool)", name))
+	fc.facts = append(fc.facts, "(= "+name+" "+s+")")
+	return name
+}
+
+// collectByteLeaves records the []byte components of a fresh value (for faithful replay models).
+func (fc *FuncCtx) collectByteLeaves(t Term, depth int) {
+	if depth > 3 || t.T == nil {
+		return
+	}
+	reg := fc.w.Reg
+	if as, ok := reg.ifaceAs[reg.typeKey(t.T)]; ok {
+		t = Term{S: t.S, T: as}
+	}
+	switch u := t.T.Underlying().(type) {
+	case *types.Slice:
+		if b, ok := u.Elem().Underlying().(*types.Basic); ok && b.Kind() == types.Uint8 {
+			_, arr, _, _, _ := reg.sliceParts(t)
+			fc.byteSlices = append(fc.byteSlices, byteLeaf{arr, len(fc.decls)})
+		}
+	case *types.Struct:
+		si := reg.StructInfo(t.T)
+		for _, f := range si.Fields {
+			ft, _ := reg.fieldOf(t, f.Name)
+			fc.collectByteLeaves(ft, depth+1)
+		}
+	case *types.Pointer:
+		fc.collectByteLeaves(reg.deref(t), depth+1)
+	}
+}
+
+// byteAxioms: every cell of the recorded byte arrays is a byte (used in model queries only).
+func (o *Obligation) byteAxioms() []string {
+	var out []string
+	for _, b := range o.fc.byteSlices {
+		if b.ndecl <= o.NDecl {
+			out = append(out, "(forall ((qb Int)) (and (<= 0 (select "+b.term+" qb)) (< (select "+b.term+" qb) 256)))")
+		}
+	}
+	return out
+}
